@@ -116,6 +116,21 @@ func (f *Frame) lookupLocal(st *State, name string) (Val, bool) {
 	return Val{}, false
 }
 
+// lookupAddr returns the pointer to a captured variable or to a heap-allocated local.
+func (f *Frame) lookupAddr(st *State, name string) (Val, bool) {
+	for i, fv := range f.fn.FreeVars {
+		if fv.Name() == name {
+			return f.freeVars[i], true
+		}
+	}
+	if a := f.findAlloc(name); a != nil {
+		if p, ok := f.regs[a]; ok {
+			return p, true
+		}
+	}
+	return Val{}, false
+}
+
 func (f *Frame) findAlloc(name string) *ssa.Alloc {
 	var best *ssa.Alloc
 	bestSeq := -1
@@ -1087,8 +1102,12 @@ func (x *Exec) execTypeAssert(st *State, fr *Frame, n *ssa.TypeAssert) Val {
 	var ok *T
 	var res Val
 	if isInterface(n.AssertedType) {
-		// interface-to-interface: succeeds iff non-nil and dynamic type implements it (uninterpreted per target)
+		// interface-to-interface: succeeds iff non-nil and dynamic type implements it (uninterpreted per target,
+		// statically true when the static type already has the asserted method set)
 		impl := App("implements_"+typeKey(n.AssertedType), SBool, App("itype", SInt, h))
+		if types.AssignableTo(n.X.Type(), n.AssertedType) {
+			impl = True
+		}
 		ok = And(Ne(h, IntLit(0)), impl)
 		res = Val{Typ: n.AssertedType, C: []*T{h}}
 	} else {
